@@ -10,12 +10,17 @@ mod gen {
     pub mod enums;
     pub mod operands;
     pub mod decode;
+    pub mod builder;
 }
 mod proj;
 mod dump;
 mod decoder;
 mod ggen;
 mod parser;
+mod loader;
+mod module;
+mod bdrive;
+mod preds;
 
 fn main() {
     util::install_panic_hook();
@@ -29,6 +34,10 @@ fn main() {
         "dump-grammar" => dump::dump_grammar(rest),
         "drive-decoder" => decoder::drive(rest),
         "drive-parser" => parser::drive(rest),
+        "drive-loader" => loader::drive(rest),
+        "drive-module" => module::drive(rest),
+        "drive-builder" => bdrive::drive(rest),
+        "drive-preds" => preds::drive(rest),
         other => {
             eprintln!("vh: unknown subcommand {}", other);
             std::process::exit(2);
